@@ -154,3 +154,12 @@ claim("C19",
       "content ids of all array arguments (and the object) before and after and of the result, and TLC validates the log "
       "(TraceCallerMemory).",
       "TLA+ CallerMemory + TLC + trace validation of introspected calls", "DESIGN.md section 5, C19")
+claim("C15",
+      "WmmSession.tla models one WMM object over its life (loaded coefficient file, number of in-place scalings of the loaded table, "
+      "current date, identity of the answer its elements hold) with named as-built deviations; TLC proves ServesWhatWasAsked and "
+      "ScaledOnce for every history of <= 4 operations over 3 dates u None x 6 places (equator, prime meridian, both poles, 180 deg, "
+      "Munich) x 2 frames for the ideal object and generates longer histories; the harness replays them on real objects and "
+      "enforces abstract-state determinism (elements bit-equal to a fresh object's answer for the same (date, place, frame)), element "
+      "consistency (H, F, I, D), ENU = NED swapped incl. spelling, +-180 equality, finiteness at the poles, constructor = method; the "
+      "recorded histories are validated by TraceWmmSession.",
+      "TLA+ WmmSession + TLC (exhaustive histories, simulate) + replay and trace validation", "DESIGN.md section 5, C15")
